@@ -1472,9 +1472,12 @@ class Tensor(object):
 
                 value = tn.Tensor(value, batch=self.batch)
         elif isinstance(value, tn.Tensor):
-            pass
+            value = value.decompress_tucker_factors()
         else:  # It's a scalar
             scalar = True
+
+        # Cores are indexed along their spatial axis below: absorb Tucker factors first
+        src = self.decompress_tucker_factors(_clone=False)
 
         subtract_cores = []
         add_cores = []
@@ -1493,14 +1496,14 @@ class Tensor(object):
                     )
                 key[i] = slice(key[i], key[i] + 1)
 
-            subtract_core = torch.zeros_like(self.cores[i])
+            subtract_core = torch.zeros_like(src.cores[i])
             if self.batch:
-                chunk = self.cores[i][key[0], ..., key[i + 1], :]
+                chunk = src.cores[i][key[0], ..., key[i + 1], :]
                 subtract_core[key[0], ..., key[i + 1], :] += chunk
                 sh = chunk.shape[2]
                 k = i + 1
             else:
-                chunk = self.cores[i][..., key[i], :]
+                chunk = src.cores[i][..., key[i], :]
                 subtract_core[..., key[i], :] += chunk
                 sh = chunk.shape[1]
                 k = i
@@ -1508,19 +1511,19 @@ class Tensor(object):
             subtract_cores.append(subtract_core)
             if scalar:
                 if self.batch:
-                    if self.cores[i].dim() == 4:
-                        add_core = torch.zeros(self.shape[0], 1, self.shape[i + 1], 1, dtype=self.cores[i].dtype)
+                    if src.cores[i].dim() == 4:
+                        add_core = torch.zeros(self.shape[0], 1, self.shape[i + 1], 1, dtype=src.cores[i].dtype)
                     else:
-                        add_core = torch.zeros(self.shape[0], self.shape[i + 1], 1, dtype=self.cores[i].dtype)
+                        add_core = torch.zeros(self.shape[0], self.shape[i + 1], 1, dtype=src.cores[i].dtype)
 
                     add_core[key[0], ..., key[i + 1], :] += 1
                     if i == 0:
                         add_core *= value
                 else:
-                    if self.cores[i].dim() == 3:
-                        add_core = torch.zeros(1, self.shape[i], 1, dtype=self.cores[i].dtype)
+                    if src.cores[i].dim() == 3:
+                        add_core = torch.zeros(1, self.shape[i], 1, dtype=src.cores[i].dtype)
                     else:
-                        add_core = torch.zeros(self.shape[i], 1, dtype=self.cores[i].dtype)
+                        add_core = torch.zeros(self.shape[i], 1, dtype=src.cores[i].dtype)
 
                     add_core[..., key[i], :] += 1
                     if i == 0:
@@ -1541,17 +1544,17 @@ class Tensor(object):
                                 )
 
                 if self.batch:
-                    if self.cores[i].dim() == 4:
+                    if src.cores[i].dim() == 4:
                         add_core = torch.zeros(
-                            self.cores[i].shape[0],
+                            src.cores[i].shape[0],
                             value.cores[i].shape[1],
                             self.shape[i + 1],
-                            value.cores[i].shape[3], dtype=self.cores[i].dtype)
+                            value.cores[i].shape[3], dtype=src.cores[i].dtype)
                     else:
                         add_core = torch.zeros(
-                            self.cores[i].shape[0],
+                            src.cores[i].shape[0],
                             self.shape[i + 1],
-                            value.cores[i].shape[2], dtype=self.cores[i].dtype)
+                            value.cores[i].shape[2], dtype=src.cores[i].dtype)
 
                     if isinstance(key[i + 1], int):
                         add_core[key[0], ..., key[i + 1], :] += value.cores[i][
@@ -1566,18 +1569,18 @@ class Tensor(object):
                                 i, chunk.shape[1], value.shape[i]
                             )
                         )
-                    if self.cores[i].dim() == 3:
+                    if src.cores[i].dim() == 3:
                         add_core = torch.zeros(
                             value.cores[i].shape[0],
                             self.shape[i],
-                            value.cores[i].shape[2], dtype=self.cores[i].dtype)
+                            value.cores[i].shape[2], dtype=src.cores[i].dtype)
                     else:
-                        add_core = torch.zeros(self.shape[i], value.cores[i].shape[1], dtype=self.cores[i].dtype)
+                        add_core = torch.zeros(self.shape[i], value.cores[i].shape[1], dtype=src.cores[i].dtype)
 
                     add_core[..., key[i], :] += value.cores[i]
             add_cores.append(add_core)
         result = (
-            self
+            src
             - tn.Tensor(subtract_cores, batch=self.batch)
             + tn.Tensor(add_cores, batch=self.batch)
         )
